@@ -36,7 +36,13 @@ Allowed(i, lv) == IF ~Rows[i].claimed THEN {}
 \*                                      "zero" - every integer companion argument 0      (a length of 0 is not a licence to skip the guard)
 \*                                      "neg"  - every signed integer companion argument -1
 \*                                      "allnull" - EVERY pointer argument NULL: the first entry guard decides (Rows[i].allnull)
+\*                                      "nullslots" - the list arguments hold a NULL element (NULL padding of insert_at): a NULL probe
+\*                                                    is refused, it never "matches" an empty slot
+\*                                      "prelude" - (functions returning a string) a VALID call is made first and its result is kept:
+\*                                                  the refused call must leave that earlier result as it was (static result buffers)
 Variants(i) == {"mid"} \cup (IF Rows[i].nint > 0 THEN {"zero"} ELSE {})
+                       \cup (IF Rows[i].haslist THEN {"nullslots"} ELSE {})
+                       \cup (IF Rows[i].retchars THEN {"prelude"} ELSE {})
                        \cup (IF Rows[i].nsigned > 0 THEN {"neg"} ELSE {})
                        \cup (IF Rows[i].allnull # "NONE" THEN {"allnull"} ELSE {})
 Expected(i, v) == IF v = "allnull" THEN Rows[i].allnull ELSE Rows[i].fail
